@@ -298,6 +298,8 @@ class FakeOS(object):
         return 999
 
     def stat(self, path):
+        if path.startswith('sim/'):          # a relative command name with a slash is used as given, not searched in PATH
+            return _real_os.stat_result((0o100755, 1, 1, 1, 0, 0, 0, 0, 0, 0))
         if path.startswith('/sim/'):
             if path.startswith('/sim/missing'):
                 raise OSError(errno.ENOENT, 'sim missing')
@@ -310,7 +312,7 @@ class FakeOS(object):
         return _real_os.stat(path)
 
     def access(self, path, mode):
-        if path.startswith('/sim/'):
+        if path.startswith('/sim/') or path.startswith('sim/'):
             return not path.startswith('/sim/noperm')     # executable bits set, but not for this user
         return _real_os.access(path, mode)
 
